@@ -6,8 +6,11 @@
     seeded.py check  <name>... [--all] [--tier quick]
                                             run the property's check (or every check with --all) against a scratch
                                             export of /repo with the patch applied (VERIF_REPO); records results in meta.json
+    seeded.py multiseed <name>... [--seeds 1,2,3]   own-property check at several VERIF_SEED values
     seeded.py inrepo <name>                 the same on /repo itself: git apply, run the check, git checkout -- . (nothing else may run)
     seeded.py table                         markdown summary
+With VERIF_SEEDED_DIR=benign the same commands work on /verif/benign/: changes written to be HARMLESS (the property still holds);
+verify then expects the demo to pass with and without the patch, and every check is expected to stay quiet on them.
 """
 import glob
 import json
@@ -18,7 +21,7 @@ import sys
 import tempfile
 
 VERIF = os.path.dirname(os.path.dirname(os.path.abspath(__file__)))
-SEEDED = os.path.join(VERIF, 'seeded')
+SEEDED = os.path.join(VERIF, os.environ.get('VERIF_SEEDED_DIR', 'seeded'))      # 'benign' for the harmless changes
 PY = '/venv/bin/python'
 ALL = ['C%02d' % i for i in range(1, 21)]
 
@@ -55,7 +58,8 @@ def cmd_import(out_dir, k, name):
     shutil.copy(os.path.join(out_dir, 'demo%s.py' % k), os.path.join(d, 'demo.py'))
     m = json.load(open(os.path.join(out_dir, 'meta%s.json' % k)))
     m = {'property': m.get('property'), 'files': m.get('files'), 'summary': m.get('summary'), 'needs': m.get('needs'),
-         'author': 'independent sub-agent given only the property record', 'author_ran': m.get('ran')}
+         'author': 'independent sub-agent given only the property record', 'author_ran': m.get('ran'),
+         **{k: m[k] for k in ('visible_difference', 'why_harmless') if k in m}}
     save_meta(name, m)
     print('imported', name)
 
@@ -81,7 +85,10 @@ def cmd_verify(name):
         out['demo_pristine_rc'] = r.returncode
     finally:
         shutil.rmtree(t, ignore_errors=True)
-    out['confirmed'] = bool(out['repo_tests_pass'] and out['demo_with_patch_rc'] != 0 and out['demo_pristine_rc'] == 0)
+    if os.environ.get('VERIF_SEEDED_DIR') == 'benign':      # a harmless change: the demo passes with and without it
+        out['confirmed'] = bool(out['repo_tests_pass'] and out['demo_with_patch_rc'] == 0 and out['demo_pristine_rc'] == 0)
+    else:
+        out['confirmed'] = bool(out['repo_tests_pass'] and out['demo_with_patch_rc'] != 0 and out['demo_pristine_rc'] == 0)
     m['verified_by_me'] = out
     save_meta(name, m)
     print(name, json.dumps(out))
@@ -117,6 +124,20 @@ def cmd_check(name, all_checks=False, tier='quick'):
     save_meta(name, m)
     print(name, 'own:', m[key].get(m['property'], {}).get('exit'), 'caught_by:', m['caught_by'], (m[key].get(m['property'], {}).get('first') or [''])[:1])
     return m
+
+
+def cmd_multiseed(name, seeds, tier='quick'):
+    """own-property check at several VERIF_SEED values: how much of the detection is luck of one seed?"""
+    d = os.path.join(SEEDED, name)
+    m = meta_of(name)
+    t = scratch(os.path.join(d, 'patch.diff'))
+    try:
+        res = {s_: run_checks(t, [m['property']], tier, seed=s_)[m['property']]['exit'] for s_ in seeds}
+    finally:
+        shutil.rmtree(t, ignore_errors=True)
+    m.setdefault('own_by_seed_%s' % tier, {}).update(res)
+    save_meta(name, m)
+    print(name, 'own check exit by VERIF_SEED:', res)
 
 
 def cmd_inrepo(name, tier='quick'):
@@ -164,6 +185,10 @@ if __name__ == '__main__':
         names = [n for n in names if n != tier]
         for n in names:
             cmd_check(n, '--all' in a, tier)
+    elif a[0] == 'multiseed':
+        seeds = a[a.index('--seeds') + 1].split(',') if '--seeds' in a else ['1', '2', '3']
+        for n in [x for x in a[1:] if not x.startswith('--') and ',' not in x and not x.isdigit()]:
+            cmd_multiseed(n, seeds)
     elif a[0] == 'inrepo':
         cmd_inrepo(a[1])
     elif a[0] == 'table':
